@@ -984,6 +984,9 @@ class ChannelDataChunk(object):
             return scale.scale(self._raw_data)
         elif self._raw_data.scaler_data:
             raise ValueError("Missing scaling information for DAQmx data")
+        elif isinstance(self._raw_data.data, list):
+            # Data without a numpy type (strings) is read as a list
+            return np.array(self._raw_data.data, dtype=self._channel.dtype)
         else:
             return self._raw_data.data
 
